@@ -42,10 +42,39 @@ impl ShimEntry {
     }
 }
 
+#[repr(C)]
+struct RLimit {
+    cur: u64,
+    max: u64,
+}
+const RLIMIT_FSIZE: i32 = 1;
+const SIGXFSZ: i32 = 25;
+const RLIM_INFINITY: u64 = u64::MAX;
+
 extern "C" {
     fn dlsym(handle: *mut std::ffi::c_void, symbol: *const std::ffi::c_char) -> *mut std::ffi::c_void;
     fn kill(pid: i32, sig: i32) -> i32;
     fn getpid() -> i32;
+    fn getrlimit(resource: i32, rlim: *mut RLimit) -> i32;
+    fn setrlimit(resource: i32, rlim: *const RLimit) -> i32;
+    fn signal(signum: i32, handler: usize) -> usize;
+}
+
+/// the kernel's own mechanism for refused writes: a soft file-size limit (SIGXFSZ ignored, so the
+/// write fails with EFBIG after a partial write up to the limit)
+pub fn set_fsize_limit(limit: Option<u64>) -> bool {
+    unsafe {
+        signal(SIGXFSZ, 1); // SIG_IGN
+        let mut r = RLimit { cur: 0, max: 0 };
+        if getrlimit(RLIMIT_FSIZE, &mut r) != 0 {
+            return false;
+        }
+        r.cur = match limit {
+            Some(l) => l.min(r.max),
+            None => r.max.min(RLIM_INFINITY),
+        };
+        setrlimit(RLIMIT_FSIZE, &r) == 0
+    }
 }
 
 #[derive(Clone, Copy)]
@@ -697,7 +726,7 @@ fn c16_run(bw: &mut BWorker, payload: &[u8], io: &mut WorkerIo) -> Vec<u8> {
     let dl = cfg.letters[seq[dpos] as usize];
     let dname = cfg.label(&dl);
     // 0 deviations: count the writes of the durability call
-    let count_writes = |bw: &mut BWorker, out: &mut BOutcome| -> Result<i64, String> {
+    let count_writes = |bw: &mut BWorker, out: &mut BOutcome| -> Result<(i64, Vec<u64>), String> {
         let dir = bw.scratch.fresh("c16");
         let mut st = BState::new(&cfg, &dir);
         for li in &seq[..dpos] {
@@ -706,6 +735,14 @@ fn c16_run(bw: &mut BWorker, payload: &[u8], io: &mut WorkerIo) -> Vec<u8> {
             }
             out.calls += 1;
         }
+        // the map the call is made on exists before any fault is armed: the property is about refusals
+        // during flush/sync, not during the creation of a map
+        if !matches!(dl.kind, L_DB_SYNC_ALL | L_DB_SYNC_DATA) {
+            if let Err(e) = st.handle(&cfg, dl.map as usize % cfg.maps.len(), dl.handle) {
+                return Err(format!("without any fault: {e}"));
+            }
+        }
+        shim.clear_log();
         shim.arm(i64::MAX / 2, 0);
         let r = st.exec(&cfg, &dl);
         let w = shim.writes_since_arming();
@@ -713,10 +750,20 @@ fn c16_run(bw: &mut BWorker, payload: &[u8], io: &mut WorkerIo) -> Vec<u8> {
         if let Some(e) = r {
             return Err(format!("without any fault: {e}"));
         }
+        // every distinct file-size threshold at which some write of the call no longer fits
+        let mut th: Vec<u64> = Vec::new();
+        for e in shim.log().iter().filter(|e| e.op == 0 || e.op == 1) {
+            if e.len > 0 {
+                th.push((e.off + e.len - 1) as u64);
+                th.push(e.off as u64);
+            }
+        }
+        th.sort();
+        th.dedup();
         st.drop_all();
-        Ok(w)
+        Ok((w, th))
     };
-    let w = match count_writes(bw, &mut out) {
+    let (w, thresholds) = match count_writes(bw, &mut out) {
         Ok(w) => w,
         Err(e) => {
             out.failure = Some((seq.clone(), dpos, "c16:baseline".into(), e));
@@ -729,7 +776,14 @@ fn c16_run(bw: &mut BWorker, payload: &[u8], io: &mut WorkerIo) -> Vec<u8> {
         *out.counters.entry("histories_whose_durability_call_writes".into()).or_insert(0) += 1;
     }
     let snap = bw.scratch.fresh("c16snap");
-    let mut run_one = |bw: &mut BWorker, out: &mut BOutcome, k1: i64, mode: i64, k2: i64| -> Result<bool, (String, String)> {
+    let run_one = |bw: &mut BWorker, out: &mut BOutcome, k1: i64, mode: i64, k2: i64| -> Result<bool, (String, String)> {
+        struct Lift;
+        impl Drop for Lift {
+            fn drop(&mut self) {
+                set_fsize_limit(None);
+            }
+        }
+        let _lift_at_exit = Lift;
         // returns Ok(true) if the second deviation (k2) actually refused a write
         let dir = bw.scratch.fresh("c16");
         let mut st = BState::new(&cfg, &dir);
@@ -740,9 +794,25 @@ fn c16_run(bw: &mut BWorker, payload: &[u8], io: &mut WorkerIo) -> Vec<u8> {
         }
         out.sequences += 1;
         let what = format!("write #{k1} of {dname} refused ({})", match mode { 0 => "ENOSPC, and every later write", 1 => "short write, then ENOSPC", _ => "file-size limit at that write's offset: every write ending beyond it is refused" });
-        shim.arm(k1, mode);
-        let r = st.exec(&cfg, &dl);
-        let refused = shim.refused();
+        if !matches!(dl.kind, L_DB_SYNC_ALL | L_DB_SYNC_DATA) {
+            if let Err(e) = st.handle(&cfg, dl.map as usize % cfg.maps.len(), dl.handle) {
+                return Err(("c16:baseline".into(), e));
+            }
+        }
+        let what = if mode == 3 { format!("{dname} under a real file-size limit of {k1} bytes (setrlimit RLIMIT_FSIZE)") } else { what };
+        let r;
+        let refused;
+        if mode == 3 {
+            if !set_fsize_limit(Some(k1 as u64)) {
+                return Err(("machinery:setrlimit".into(), "setrlimit failed".into()));
+            }
+            r = st.exec(&cfg, &dl);
+            refused = 1; // some write of the call ends beyond the limit by construction
+        } else {
+            shim.arm(k1, mode);
+            r = st.exec(&cfg, &dl);
+            refused = shim.refused();
+        }
         if refused == 0 {
             shim.disarm();
             return Err(("machinery:not-refused".into(), format!("{what}: the injector never fired (the call issued fewer writes than in the unfaulted run)")));
@@ -786,6 +856,9 @@ fn c16_run(bw: &mut BWorker, payload: &[u8], io: &mut WorkerIo) -> Vec<u8> {
             }
         }
         shim.disarm();
+        if mode == 3 {
+            set_fsize_limit(None);
+        }
         let mut second_fired = false;
         if k2 > 0 {
             // second deviation: the retry is refused as well
@@ -852,6 +925,19 @@ fn c16_run(bw: &mut BWorker, payload: &[u8], io: &mut WorkerIo) -> Vec<u8> {
                 }
             }
         }
+    }
+    // the kernel's own mechanism at every distinct threshold (cross-check of the injector)
+    if out.failure.is_none() && only_k == u64::MAX {
+        for t in &thresholds {
+            io.progress(3 << 40 | *t);
+            *out.counters.entry("rlimit_thresholds".into()).or_insert(0) += 1;
+            if let Err((key, msg)) = run_one(bw, &mut out, *t as i64, 3, 0) {
+                set_fsize_limit(None);
+                out.failure = Some((seq.clone(), dpos, key, msg));
+                break;
+            }
+        }
+        set_fsize_limit(None);
     }
     out.enc()
 }
@@ -978,11 +1064,11 @@ pub fn c16(tier: &str, seed: u64) -> i32 {
     for h in histories.iter().take(3).chain(histories.iter().rev().take(2)) {
         ctx.run.sample(J::Arr(h.iter().map(|li| J::s(&cfg.label(&cfg.letters[*li as usize]))).collect()));
     }
-    let evals = ctx.run.get("single_refusals") + ctx.run.get("double_refusals");
+    let evals = ctx.run.get("single_refusals") + ctx.run.get("double_refusals") + ctx.run.get("rlimit_thresholds");
     ctx.run.set("evaluations", J::Int(evals));
     ctx.run.set("distinct_nontrivial", J::Int(evals));
     ctx.run.set("histories", J::Int(hdone as i64));
-    ctx.run.set("rule", J::s("deviation-bounded fault enumeration at the system-call boundary (LD_PRELOAD shim): for every update history (all sequences of 1..n updates over put small/300000-byte values on 2 keys, delete, and a put on a second small map of the key type the database syncs last; 65536-bucket table so that all three files have dirty chunks) followed by each of flush/sync_data/sync_all/db.sync_all/db.sync_data: run once unfaulted and count the W write calls of the durability call; then for every k in 1..W and three refusal modes (ENOSPC from the k-th write on; short write then ENOSPC; a file-size limit at the k-th write's offset, i.e. later writes to smaller offsets of other files still succeed, as under RLIMIT_FSIZE) run again (1 deviation), in the thorough tier additionally every refused retry (2 deviations). oracle: the call returns Err; while refusing, reads answer the model's value or Err, never a wrong Ok or a panic; after lifting, before any flush, every get/len/iteration equals the model; the next flush returns Ok and a copy of the directory decodes and opens to the model. every case is distinct (history, call, k, mode) and non-trivial (a write was really refused; runs where the injector did not fire are machinery errors)"));
+    ctx.run.set("rule", J::s("deviation-bounded fault enumeration at the system-call boundary (LD_PRELOAD shim): for every update history (all sequences of 1..n updates over put small/300000-byte values on 2 keys, delete, and a put on a second small map of the key type the database syncs last; 65536-bucket table so that all three files have dirty chunks) followed by each of flush/sync_data/sync_all/db.sync_all/db.sync_data: run once unfaulted and count the W write calls of the durability call; then for every k in 1..W and three refusal modes (ENOSPC from the k-th write on; short write then ENOSPC; a file-size limit at the k-th write's offset, i.e. later writes to smaller offsets of other files still succeed, as under RLIMIT_FSIZE) run again (1 deviation), in the thorough tier additionally every refused retry (2 deviations); finally the kernel's own mechanism: setrlimit(RLIMIT_FSIZE) with SIGXFSZ ignored at every distinct threshold (start and last byte of every write of the call), so each of the three files and each position within them is in turn the first to fail. oracle: the call returns Err; while refusing, reads answer the model's value or Err, never a wrong Ok or a panic; after lifting, before any flush, every get/len/iteration equals the model; the next flush returns Ok and a copy of the directory decodes and opens to the model. every case is distinct (history, call, k, mode) and non-trivial (a write was really refused; runs where the injector did not fire are machinery errors)"));
     ctx.run.exhaustive = complete;
     ctx.run.assumptions.push("only write/pwrite refusals are injected (the property's wording); failing fsync/ftruncate is not explored".into());
     if evals == 0 && ctx.run.violations.is_empty() {
